@@ -54,7 +54,7 @@ def ensure_generated(force=False):
     content differs, so that an unchanged table does not trigger a rebuild."""
     gdir = os.path.join(COQ, "theories", "Generated")
     os.makedirs(gdir, exist_ok=True)
-    targets = [os.path.join(gdir, f) for f in ("ObservedSendable.v", "ObservedProps.v")]
+    targets = [os.path.join(gdir, f) for f in ("ObservedSendable.v", "ObservedProps.v", "ObservedCodes.v")]
     if all(os.path.exists(t) for t in targets) and not force:
         return
     if not os.path.exists(HARNESS_BIN):
